@@ -1,14 +1,14 @@
-"""Hand-minimised regression cases for the C01 defects that were repaired (see known_findings.json).
-Writes corpus/regressions/C01/*.json; each is replayed first by every run of ./check C01."""
+"""Hand-minimised regression cases for the defects that were repaired (see known_findings.json).
+Writes corpus/regressions/<ID>/*.json; each is replayed first by every run of ./check <ID>."""
 import json, os, sys
 sys.path.insert(0, os.path.dirname(os.path.dirname(os.path.abspath(__file__))))
 from mtv.tinylang import *
 
-OUT = os.path.join(os.path.dirname(os.path.dirname(os.path.abspath(__file__))), 'corpus', 'regressions', 'C01')
-os.makedirs(OUT, exist_ok=True)
+ROOT = os.path.join(os.path.dirname(os.path.dirname(os.path.abspath(__file__))), 'corpus', 'regressions')
+ALL = {}
 
-def A(t, n):
-    return {'type': t, 'name': n, 'id': None, 'defenses': {}}
+def A(t, n, id=None, defenses=None):
+    return {'type': t, 'name': n, 'id': id, 'defenses': defenses or {}}
 
 def model(assets, links):
     return {'assets': assets, 'links': [{'assoc': k, 'left': l, 'right': r} for k, l, r in links], 'attackers': []}
@@ -21,7 +21,7 @@ seq = [assoc('Seq', 'Host', 'prev', 'Host', 'nxt')]
 def seqlang(e):
     return lang([asset('Host', [step('access', reaches=[col(e, S('access'))])])], seq)
 
-cases = {
+ALL['C01'] = {
     'union-empty-left-operand': ('random', {'spec': setlang('union'), 'model': model([A('Host', 'a'), A('Data', 'b1')], [(1, [0], [1])])}),
     'union-shared-element': ('random', {'spec': setlang('union'), 'model': model([A('Host', 'a'), A('Data', 'b1'), A('Data', 'b2')], [(0, [0], [1]), (1, [0], [1]), (1, [0], [2])])}),
     'difference-shared-element': ('random', {'spec': setlang('difference'), 'model': model([A('Host', 'a'), A('Data', 'b1')], [(0, [0], [1]), (1, [0], [1])])}),
@@ -47,7 +47,34 @@ cases = {
         [assoc('HasN', 'App', 'owner1', 'Net', 'nets'), assoc('HasU', 'App', 'owner2', 'User', 'users')]),
         'model': model([A('App', 'a'), A('Net', 'n'), A('User', 'u')], [(0, [0], [1]), (1, [0], [2])])}),
 }
-for name, (clause, case) in cases.items():
-    with open(os.path.join(OUT, name + '.json'), 'w') as f:
-        json.dump({'clause': clause, 'case': case}, f, indent=1, sort_keys=True)
-print(len(cases), 'written to', OUT)
+
+one = lang([asset('Host', [step('access')])], [assoc('Seq', 'Host', 'prev', 'Host', 'nxt')])
+ALL['C02'] = {
+    'rename-collides-with-existing-name': ('random', {'spec': one, 'model': model(
+        [A('Host', 'a'), A('Host', 'a:2'), A('Host', 'a')], [])}),
+    'explicit-id-zero-after-other-assets': ('random', {'spec': one, 'model': model(
+        [A('Host', 'n0', 7), A('Host', 'n1', 0), A('Host', 'n2'), A('Host', 'n3'), A('Host', 'n4', 10)], [])}),
+}
+
+def H(ops, clause='tiny-language-histories'):
+    return (clause, {'spec': None, 'ops': ops})
+
+ALL['C05'] = {
+    'id-of-removed-asset-is-reusable': H([['add_asset', 0, 0, 0, True], ['remove_asset', 0], ['add_asset', 2, 1, 1, True]]),
+    'name-of-removed-asset-is-reusable': H([['add_asset', 0, 0, 0, True], ['remove_asset', 0], ['add_asset', 1, 0, 0, True]]),
+    'remove-asset-with-self-link': H([['add_asset', 0, 0, 0, True], ['add_assoc', 1, [0], [1]], ['remove_asset', 0]]),
+    'remove-from-multi-member-field-back-reference': H([['add_asset', 0, 0, 0, True], ['add_asset', 0, 1, 0, True], ['add_asset', 2, 3, 0, True],
+                                                       ['add_assoc', 0, [0, 1], [0]], ['remove_from_assoc', 1, 0]]),
+    'rejected-add-asset-keeps-id-free': H([['add_asset', 0, 0, 0, True], ['add_asset', 0, 0, 4, False], ['add_asset', 0, 1, 4, True]]),
+    'explicit-id-zero-honoured': H([['add_asset', 0, 0, 4, True], ['add_asset', 0, 1, 1, True]]),
+    'self-link-neighbours-both-fields': H([['add_asset', 0, 0, 0, True], ['add_assoc', 1, [0], [0]]]),
+}
+
+if __name__ == '__main__':
+    for pid, cases in ALL.items():
+        out = os.path.join(ROOT, pid)
+        os.makedirs(out, exist_ok=True)
+        for name, (clause, case) in cases.items():
+            with open(os.path.join(out, name + '.json'), 'w') as f:
+                json.dump({'clause': clause, 'case': case}, f, indent=1, sort_keys=True)
+        print(pid, len(cases), 'written to', out)
